@@ -139,7 +139,9 @@ def limits_suite(ctx, vh):
                 continue
             seen.add(k2)
             lim = lim_limit(r)
-            if r["dir"] == "c2s" and lim is not None and r["size"] > lim:
+            if (lim is not None and r["ann"] != lim) or (lim is None and r["ann"] > 0):
+                why = "the handshake does not announce the limit the server enforces"
+            elif r["dir"] == "c2s" and lim is not None and r["size"] > lim:
                 why = "an inbound message over MaxBufferSize was accepted or buffered, or the connection was not closed"
             elif r["dir"] == "c2s" and lim is not None and r["read"] > lim + 1:
                 why = "the server read more than MaxBufferSize from a request body"
